@@ -75,12 +75,15 @@ def validate(c, lines, nshards, label):
     by_id = {json.loads(l)["id"]: json.loads(l) for l in lines}
     verdicts = collections.Counter()
     nint, nruns, nontrivial = 0, 0, 0
+    njumps, nunsound = 0, 0
     for r in res:
         c.add_tlc(r)
         for s in r.printed("STAT"):
             verdicts[s["v"]] += 1
             nint += s["n"]
             nruns += s["runs"]
+            njumps += s.get("jumps", 0)
+            nunsound += s.get("unsound", 0)
             if s["v"] == "ok" and (s["n"] > 1 or s["runs"] > 1):
                 nontrivial += 1
     for m in mism:
@@ -91,8 +94,12 @@ def validate(c, lines, nshards, label):
                                       "bound", "next_change_b", "state_b", "complete", "sched", "expr")}
         case["verdict"] = m["what"]
         case["expected"] = m.get("expected")
-        c.mismatch("%s: %s on %r (%s)" % (label, m["what"], e.get("src"), json.dumps(
-            {k: e.get(k) for k in ("from", "to", "t", "next_change", "bound", "next_change_b") if k in e})), case)
+        case["unsound_jumps"] = m.get("unsound_jumps")
+        c.mismatch("%s: %s on %r (%s)%s" % (label, m["what"], e.get("src"), json.dumps(
+            {k: e.get(k) for k in ("from", "to", "t", "next_change", "bound", "next_change_b") if k in e}),
+            (" [unsound hint: jumps %s skip days that differ]" % json.dumps(m["unsound_jumps"])) if m.get("unsound_jumps") else ""), case)
+    c.setv("iterator_day_jumps_checked_against_hint_contract", njumps)
+    c.setv("unsound_jumps_seen", nunsound)
     return verdicts, nint, nruns, nontrivial
 
 
